@@ -355,11 +355,14 @@ def check_history(col, W, hist, observe=None):
     queried = {e[1] for e in hist if e[0] == "q"}
     labels = W.req if len(hist) <= 1 else [lab for lab in W.req if lab in queried]
     canons = []
+    # all live read-backs first: building a fresh reference system calls add_subclass_edge / add_for_type,
+    # which clear the CLASS-level functools caches and thereby the live systems' caches too
+    lives = {(s.name, lab): W.query(s, s.ts, s.prov, lab, live=True)[0] for s in W.systems for lab in labels}
     for s, snap in zip(W.systems, W.snap):
         canon = W.graph_canon(s, snap)
         canons.append(canon)
         for lab in labels:
-            live, _, _ = W.query(s, s.ts, s.prov, lab, live=True)
+            live = lives[(s.name, lab)]
             fresh, _, _ = W.fresh_answer(s, canon, lab)
             col.count("transitions")
             col.count("cached_answers_compared", len(live))
